@@ -56,8 +56,8 @@ PROPS = {
         "audit": "GldapModel/Audit/C01.lean",
         "inventory": DECODE_FUNCS,
         "streams": [
-            {"stream": "decode-valid", "n_quick": 20000, "n_thorough": 400000},
-            {"stream": "clientwire", "n_quick": 1500, "n_thorough": 30000},
+            {"stream": "decode-valid", "n_quick": 20000, "n_thorough": 2000000},
+            {"stream": "clientwire", "n_quick": 1500, "n_thorough": 100000},
         ],
         "trusted": BER_TRUST,
         "assumptions": ["filters are compared semantically: the delivered filter string must recompile to the client's filter bytes"],
@@ -71,7 +71,7 @@ PROPS = {
                       "extendedRoute.match", "searchRoute.match", "newRequest", "WithBaseDN", "WithFilter", "WithScope",
                       "getRouteOpts", "routeDefaults"],
         "streams": [
-            {"stream": "mux", "n_quick": 30000, "n_thorough": 300000},
+            {"stream": "mux", "n_quick": 30000, "n_thorough": 1500000},
         ],
         "trusted": BER_TRUST + ["strings.EqualFold modelled for ASCII only (criteria alphabets are ASCII)"],
         "assumptions": ["route criteria and request strings are ASCII in the theorems' EqualFold model"],
@@ -81,7 +81,7 @@ PROPS = {
         "audit": "GldapModel/Audit/C04.lean",
         "inventory": RESPONSE_FUNCS,
         "streams": [
-            {"stream": "resp", "n_quick": 20000, "n_thorough": 400000},
+            {"stream": "resp", "n_quick": 20000, "n_thorough": 2000000},
         ],
         "trusted": BER_TRUST + ["bufio.Writer into a bytes.Buffer (Write+Flush delivers exactly the bytes written)"],
         "assumptions": ["WithAttributes maps are restricted to at most one key in the byte-exact stream, because Go map iteration order is random; multi-key maps are covered by the newentry stream and by the multiset oracle"],
@@ -91,9 +91,9 @@ PROPS = {
         "audit": "GldapModel/Audit/C16.lean",
         "inventory": HELPER_FUNCS,
         "streams": [
-            {"stream": "convert", "n_quick": 10000, "n_thorough": 100000},
-            {"stream": "sid", "n_quick": 6000, "n_thorough": 100000},
-            {"stream": "newentry", "n_quick": 4000, "n_thorough": 50000},
+            {"stream": "convert", "n_quick": 10000, "n_thorough": 500000},
+            {"stream": "sid", "n_quick": 6000, "n_thorough": 500000},
+            {"stream": "newentry", "n_quick": 4000, "n_thorough": 250000},
             {"stream": "resp", "n_quick": 8000, "n_thorough": 100000},
             {"stream": "behera-ctor", "n_quick": 3000, "n_thorough": 50000},
         ],
@@ -106,7 +106,7 @@ PROPS = {
         "inventory": ["td.Directory.handleBind", "Entry.GetAttributeValues", "Request.GetSimpleBindMessage", "Request.NewBindResponse",
                       "td.Directory.SetAllowAnonymousBind", "td.Directory.SetUsers"],
         "streams": [
-            {"stream": "tdbind", "n_quick": 20000, "n_thorough": 300000},
+            {"stream": "tdbind", "n_quick": 20000, "n_thorough": 1500000},
         ],
         "trusted": BER_TRUST,
         "assumptions": ["plain / TLS / StartTLS transports deliver the same bind request to the handler (C13, C18); this check drives the handler in-process through the directory's own mux"],
@@ -118,7 +118,7 @@ PROPS = {
                       "td.Directory.handleSearchGroups", "td.Directory.handleSearchGeneric", "td.Directory.findMembers", "td.find", "td.match",
                       "td.Directory.SetUsers", "td.Directory.SetGroups", "NewEntry", "NewEntryAttribute", "EntryAttribute.AddValue", "Entry.GetAttributeValues"],
         "streams": [
-            {"stream": "tdstore", "n_quick": 3000, "n_thorough": 60000},
+            {"stream": "tdstore", "n_quick": 3000, "n_thorough": 300000},
         ],
         "trusted": BER_TRUST + ["regexp `\\((.*?)\\)`, strings.ReplaceAll/Trim/TrimSpace/Contains re-implemented at byte level in the model; checked against the real functions by the tdstore stream (including a hostile DN class)"],
         "assumptions": ["the mux routes searches as modelled in routeSearch (validated by the stream); several clients issue one operation at a time (the directory serialises on d.mu, C15)"],
@@ -128,7 +128,7 @@ PROPS = {
         "audit": "GldapModel/Audit/C05.lean",
         "inventory": ["ResponseWriter.Write", "newResponseWriter", "conn.serveRequests", "conn.initConn", "sites.connwriter", "sites.go"],
         "streams": [
-            {"stream": "c05", "n_quick": 60, "n_thorough": 1500, "timeout_quick": 600, "timeout_thorough": 3000},
+            {"stream": "c05", "n_quick": 60, "n_thorough": 3000, "timeout_quick": 600, "timeout_thorough": 6000},
         ],
         "trusted": ["bufio.Writer modelled with non-atomic Write/Flush halves and arbitrary spill; sync.Mutex as mutual exclusion",
                     "real memory corruption from a data race is visible only to the race detector (C15)"],
@@ -137,54 +137,54 @@ PROPS = {
     "C06": {
         "lean": ["GldapModel.Props.C06"], "audit": "GldapModel/Audit/C06.lean",
         "inventory": ["conn.serveRequests", "conn.readRequest", "newRequest", "Request.ConnectionID"],
-        "streams": [{"stream": "c06", "n_quick": 40, "n_thorough": 800, "timeout_quick": 900, "timeout_thorough": 3000}],
+        "streams": [{"stream": "c06", "n_quick": 40, "n_thorough": 2000, "timeout_quick": 900, "timeout_thorough": 6000}],
         "trusted": RUNTIME_TRUST,
         "assumptions": ["partial: that the Go scheduler actually runs a spawned goroutine is observed only by the rendezvous oracle"],
     },
     "C07": {
         "lean": ["GldapModel.Props.C07"], "audit": "GldapModel/Audit/C07.lean",
         "inventory": LIFECYCLE_FUNCS,
-        "streams": [{"stream": "c07", "n_quick": 14, "n_thorough": 140, "timeout_quick": 900, "timeout_thorough": 3000}],
+        "streams": [{"stream": "c07", "n_quick": 14, "n_thorough": 280, "timeout_quick": 900, "timeout_thorough": 6000}],
         "trusted": RUNTIME_TRUST,
         "assumptions": ["partial: stack exhaustion in the third-party BER reader on deeply nested input is a fatal error no recover can catch; it is outside the model and recorded as a known finding"],
     },
     "C08": {
         "lean": ["GldapModel.Props.C08"], "audit": "GldapModel/Audit/C08.lean",
         "inventory": LIFECYCLE_FUNCS,
-        "streams": [{"stream": "c08", "n_quick": 40, "n_thorough": 800, "timeout_quick": 900, "timeout_thorough": 3000}],
+        "streams": [{"stream": "c08", "n_quick": 40, "n_thorough": 2000, "timeout_quick": 900, "timeout_thorough": 6000}],
         "trusted": RUNTIME_TRUST,
         "assumptions": ["partial: goroutine and descriptor accounting is observed by the oracle only"],
     },
     "C09": {
         "lean": ["GldapModel.Props.C09"], "audit": "GldapModel/Audit/C09.lean",
         "inventory": ["Server.Run", "newConn", "Request.ConnectionID"],
-        "streams": [{"stream": "c08", "n_quick": 40, "n_thorough": 800, "timeout_quick": 900, "timeout_thorough": 3000}],
+        "streams": [{"stream": "c08", "n_quick": 40, "n_thorough": 2000, "timeout_quick": 900, "timeout_thorough": 6000}],
         "trusted": RUNTIME_TRUST,
         "assumptions": ["scope: one Run per Server (the counter is local to Run)"],
     },
     "C10": {
         "lean": ["GldapModel.Props.C10"], "audit": "GldapModel/Audit/C10.lean",
         "inventory": ["conn.serveRequests", "conn.close", "Mux.Unbind"],
-        "streams": [{"stream": "c10", "n_quick": 40, "n_thorough": 800, "timeout_quick": 900, "timeout_thorough": 3000}],
+        "streams": [{"stream": "c10", "n_quick": 40, "n_thorough": 2000, "timeout_quick": 900, "timeout_thorough": 6000}],
         "trusted": RUNTIME_TRUST, "assumptions": [],
     },
     "C11": {
         "lean": ["GldapModel.Props.C11"], "audit": "GldapModel/Audit/C11.lean",
         "inventory": LIFECYCLE_FUNCS + ["Request.StartTLS", "ResponseWriter.Write", "Mux.serve"],
-        "streams": [{"stream": "c11", "n_quick": 24, "n_thorough": 300, "timeout_quick": 900, "timeout_thorough": 3000}],
+        "streams": [{"stream": "c11", "n_quick": 24, "n_thorough": 600, "timeout_quick": 900, "timeout_thorough": 6000}],
         "trusted": RUNTIME_TRUST,
         "assumptions": ["partial: the theorem is progress (a server-only step is always enabled while a Stop is in progress); seconds are measured by the oracle; handlers are assumed to return once their I/O fails"],
     },
     "C12": {
         "lean": ["GldapModel.Props.C12"], "audit": "GldapModel/Audit/C12.lean",
         "inventory": LIFECYCLE_FUNCS,
-        "streams": [{"stream": "c12", "n_quick": 30, "n_thorough": 500, "timeout_quick": 900, "timeout_thorough": 3000}],
+        "streams": [{"stream": "c12", "n_quick": 30, "n_thorough": 1500, "timeout_quick": 900, "timeout_thorough": 6000}],
         "trusted": RUNTIME_TRUST, "assumptions": [],
     },
     "C17": {
         "lean": ["GldapModel.Props.C17"], "audit": "GldapModel/Audit/C17.lean",
         "inventory": ["Server.Run", "Server.Ready", "validateAddrPort", "last"],
-        "streams": [{"stream": "c17", "n_quick": 30, "n_thorough": 400, "timeout_quick": 900, "timeout_thorough": 3000}],
+        "streams": [{"stream": "c17", "n_quick": 30, "n_thorough": 1000, "timeout_quick": 900, "timeout_thorough": 6000}],
         "trusted": RUNTIME_TRUST,
         "assumptions": ["partial: that a connection attempt to a bound, listening socket succeeds is the kernel's backlog behaviour, observed by the oracle"],
     },
@@ -192,14 +192,14 @@ PROPS = {
         "lean": ["GldapModel.Props.C13"], "audit": "GldapModel/Audit/C13.lean",
         "inventory": ["conn.serveRequests", "conn.initConn", "Request.StartTLS", "conn.readPacket", "newResponseWriter", "ResponseWriter.Write",
                       "sites.connwriter", "sites.deadline", "sites.go"],
-        "streams": [{"stream": "c13", "n_quick": 30, "n_thorough": 500, "timeout_quick": 900, "timeout_thorough": 3000}],
+        "streams": [{"stream": "c13", "n_quick": 30, "n_thorough": 1000, "timeout_quick": 900, "timeout_thorough": 6000}],
         "trusted": RUNTIME_TRUST + ["crypto/tls: after a successful handshake every byte on the connection is TLS-protected"],
         "assumptions": ["partial: the theorem covers gldap's plumbing (the StartTLS handler runs on the connection goroutine, nothing is read meanwhile, writers are created per iteration after the swap); scope: no earlier handler is still in flight when StartTLS is read (RFC 4511 4.14.1 forbids outstanding operations)"],
     },
     "C18": {
         "lean": ["GldapModel.Props.C18"], "audit": "GldapModel/Audit/C18.lean",
         "inventory": ["Server.Run", "td.GetTLSConfig", "WithTLSConfig", "td.WithMTLS"],
-        "streams": [{"stream": "c18", "n_quick": 30, "n_thorough": 500, "timeout_quick": 900, "timeout_thorough": 3000}],
+        "streams": [{"stream": "c18", "n_quick": 30, "n_thorough": 1000, "timeout_quick": 900, "timeout_thorough": 6000}],
         "trusted": RUNTIME_TRUST + ["crypto/tls: a read yields plaintext only after a handshake satisfying the tls.Config (`beh` in the model)"],
         "assumptions": ["partial: the handshake verdict is crypto/tls's; the model covers the plumbing (listener wrapped before the accept loop, loop accepts on the wrapped listener, WithMTLS sets RequireAndVerifyClientCert and the CA pool)"],
     },
@@ -212,14 +212,14 @@ PROPS = {
                                         "td.Directory.SetAllowAnonymousBind", "td.Directory.Users", "td.Directory.Groups",
                                         "td.Directory.Controls", "td.Directory.TokenGroups", "td.Directory.AllowAnonymousBind"],
         "streams": [
-            {"stream": "tdrace", "race": True, "n_quick": 3, "n_thorough": 30, "timeout_quick": 900, "timeout_thorough": 3000},
-            {"stream": "c05", "race": True, "n_quick": 8, "n_thorough": 100, "timeout_quick": 900, "timeout_thorough": 3000},
-            {"stream": "c06", "race": True, "n_quick": 8, "n_thorough": 80, "timeout_quick": 900, "timeout_thorough": 3000},
-            {"stream": "c08", "race": True, "n_quick": 10, "n_thorough": 100, "timeout_quick": 900, "timeout_thorough": 3000},
-            {"stream": "c10", "race": True, "n_quick": 6, "n_thorough": 60, "timeout_quick": 900, "timeout_thorough": 3000},
-            {"stream": "c12", "race": True, "n_quick": 8, "n_thorough": 80, "timeout_quick": 900, "timeout_thorough": 3000},
-            {"stream": "c13", "race": True, "n_quick": 5, "n_thorough": 50, "timeout_quick": 900, "timeout_thorough": 3000},
-            {"stream": "c11", "race": True, "n_quick": 6, "n_thorough": 60, "timeout_quick": 900, "timeout_thorough": 3000},
+            {"stream": "tdrace", "race": True, "n_quick": 3, "n_thorough": 30, "timeout_quick": 900, "timeout_thorough": 6000},
+            {"stream": "c05", "race": True, "n_quick": 8, "n_thorough": 100, "timeout_quick": 900, "timeout_thorough": 6000},
+            {"stream": "c06", "race": True, "n_quick": 8, "n_thorough": 80, "timeout_quick": 900, "timeout_thorough": 6000},
+            {"stream": "c08", "race": True, "n_quick": 10, "n_thorough": 100, "timeout_quick": 900, "timeout_thorough": 6000},
+            {"stream": "c10", "race": True, "n_quick": 6, "n_thorough": 60, "timeout_quick": 900, "timeout_thorough": 6000},
+            {"stream": "c12", "race": True, "n_quick": 8, "n_thorough": 80, "timeout_quick": 900, "timeout_thorough": 6000},
+            {"stream": "c13", "race": True, "n_quick": 5, "n_thorough": 50, "timeout_quick": 900, "timeout_thorough": 6000},
+            {"stream": "c11", "race": True, "n_quick": 6, "n_thorough": 60, "timeout_quick": 900, "timeout_thorough": 6000},
         ],
         "trusted": RUNTIME_TRUST + ["Go's race detector (happens-before analysis of each observed execution)",
                                     "the classical DRF result relating the lockset/confinement discipline to happens-before races is cited, not re-proved"],
@@ -230,8 +230,8 @@ PROPS = {
         "audit": "GldapModel/Audit/C14.lean",
         "inventory": CONTROL_FUNCS,
         "streams": [
-            {"stream": "ctrl-encode", "n_quick": 20000, "n_thorough": 300000},
-            {"stream": "behera-ctor", "n_quick": 8000, "n_thorough": 100000},
+            {"stream": "ctrl-encode", "n_quick": 20000, "n_thorough": 1500000},
+            {"stream": "behera-ctor", "n_quick": 8000, "n_thorough": 500000},
         ],
         "trusted": BER_TRUST + ["go-ldap v3.4.6 DecodeControl is the second, independent reader in the harness; it nil-dereferences on a valueless Behera control, which is therefore read only by the RFC-based Lean reader"],
         "assumptions": ["strconv.FormatInt/ParseInt are modelled at byte level (Proofs/Decimal.lean)"],
@@ -241,8 +241,8 @@ PROPS = {
         "audit": "GldapModel/Audit/C02.lean",
         "inventory": DECODE_FUNCS,
         "streams": [
-            {"stream": "decode-hostile", "n_quick": 30000, "n_thorough": 600000},
-            {"stream": "ber", "n_quick": 10000, "n_thorough": 200000},
+            {"stream": "decode-hostile", "n_quick": 30000, "n_thorough": 3000000},
+            {"stream": "ber", "n_quick": 10000, "n_thorough": 1000000},
         ],
         "trusted": BER_TRUST,
         "assumptions": ["stack exhaustion in asn1-ber's recursive reader on deeply nested input is outside the model (see C07)"],
